@@ -9,26 +9,26 @@ import json, os, subprocess, sys
 ROOT = os.path.dirname(os.path.dirname(os.path.abspath(__file__)))
 TEMPLATE = open(os.path.join(ROOT, 'tools', 'seed_prompt.txt')).read()
 EARLIER = {
- 'C01': ['f2 hoisted out of the source loop in compute_rhs', 'compute() skipping the matrix fill when a matrix exists'],
- 'C02': ['is_non_vertical_grounded looking at end 1 only', 'end2 of an end-2 ground pulse built from seg0'],
- 'C03': ['the image leg of an end-2 ground pulse', 'f2 hoisted out of the source loop in compute_rhs'],
- 'C04': ['ground sign instead of direction sign in the near-field helper', 'near-field helper arrays cached across a frequency change'],
- 'C05': ['Wire.endpoints not refreshed by transformations', 'transformations sorted by option text'],
- 'C06': ['is_non_vertical_grounded', 'sgn[0] instead of sgn[1] in the end-2 block of the pulse construction'],
- 'C07': ['f2 hoisted out of the source loop in compute_rhs', 'k9 normalised with the requested far-field power'],
- 'C08': ['load weight doubled only for end-1 ground pulses', 'skin effect using the model-wide conductivity'],
- 'C09': ['end_segs in the current report', 'Wire.endpoints set once and never refreshed'],
- 'C10': ['e_phi scaled with the power ratio instead of its root', 'an absolute noise floor on the far field'],
- 'C11': ['the sign of the y term of the circular-boundary reflection point', 'ground-pulse load doubling tied to ideal ground in compute_impedance_matrix_loads'],
- 'C12': ['the end-matching tolerance minlen in compute_connections', 'an early return in compute_connections for one-segment wires'],
- 'C13': ['the last helix point in Helix.__init__', 'the unscaled radius in compute_taper2_segments'],
- 'C14': ['the frequency stamp of the skin-effect cache (zint_f)', 'srm as a cached_property'],
- 'C15': ['Mininec.cmdline_load_tag sort', 'the maximum of --taper-wire dropped in Wire.as_cmdline'],
- 'C16': ['Angle.angle_deg', 'np.linspace with end point in the near-field axis fix-up'],
- 'C17': ['the geo object lookup in register_load for all-of-object attachment', 'automatic tag numbering in Geo_Container.compute_tags'],
- 'C18': ['Medium.as_basic_input interface coordinate', 'the first end of emulated objects in Geobj.as_basic_input'],
- 'C19': ['_Load.as_mininec caching the impedance per geo object', 'the phase unit in Excitation.as_mininec_short'],
- 'C20': ['the range check in register_source', 'sorted(geo_transforms) without key'],
+ 'C01': ['f2 hoisted out of the source loop in compute_rhs', 'compute() skipping the matrix fill when a matrix exists', 'resistance of a ground-pulse load not doubled'],
+ 'C02': ['is_non_vertical_grounded looking at end 1 only', 'end2 of an end-2 ground pulse built from seg0', 'same_geobj by logical_or in compute_impedance_matrix'],
+ 'C03': ['the image leg of an end-2 ground pulse', 'f2 hoisted out of the source loop in compute_rhs', 'a tolerance in is_non_vertical_grounded'],
+ 'C04': ['ground sign instead of direction sign in the near-field helper', 'near-field helper arrays cached across a frequency change', 'E_phi not transposed in Far_Field_Pattern'],
+ 'C05': ['Wire.endpoints not refreshed by transformations', 'transformations sorted by option text', 'taper limits from the unscaled radius under --geo-scale'],
+ 'C06': ['is_non_vertical_grounded', 'sgn[0] instead of sgn[1] in the end-2 block of the pulse construction', 'transposed radius lookup in the thin-wire self term of vector_potential'],
+ 'C07': ['f2 hoisted out of the source loop in compute_rhs', 'k9 normalised with the requested far-field power', 'compute_rhs keeping the old right-hand side'],
+ 'C08': ['load weight doubled only for end-1 ground pulses', 'skin effect using the model-wide conductivity', 'insulation load junction pulse to a later bare wire (fix_distributed_loads)'],
+ 'C09': ['end_segs in the current report', 'Wire.endpoints set once and never refreshed', 'a cache of the second-end J value across solves'],
+ 'C10': ['e_phi scaled with the power ratio instead of its root', 'an absolute noise floor on the far field', 'a cache of the far-field pulse sum keyed by direction grid'],
+ 'C11': ['the sign of the y term of the circular-boundary reflection point', 'ground-pulse load doubling tied to ideal ground in compute_impedance_matrix_loads', 'reflected image of the above-ground half of ground pulses (pv.inv_ground)'],
+ 'C12': ['the end-matching tolerance minlen in compute_connections', 'an early return in compute_connections for one-segment wires', 'grounded-end index / self-reference test by tag for closed arcs'],
+ 'C13': ['the last helix point in Helix.__init__', 'the unscaled radius in compute_taper2_segments', 'geo transformations sorted by option text'],
+ 'C14': ['the frequency stamp of the skin-effect cache (zint_f)', 'srm as a cached_property', 'np.isclose in the frequency setter'],
+ 'C15': ['Mininec.cmdline_load_tag sort', 'the maximum of --taper-wire dropped in Wire.as_cmdline', 'helix radius written from the already scaled value'],
+ 'C16': ['Angle.angle_deg', 'np.linspace with end point in the near-field axis fix-up', 'V/m table rows sorted by (azimuth, zenith)'],
+ 'C17': ['the geo object lookup in register_load for all-of-object attachment', 'automatic tag numbering in Geo_Container.compute_tags', 'a stale geo_tag in the source loop of main()'],
+ 'C18': ['Medium.as_basic_input interface coordinate', 'the first end of emulated objects in Geobj.as_basic_input', 'Laplace coefficient units for BASIC version 13'],
+ 'C19': ['_Load.as_mininec caching the impedance per geo object', 'the phase unit in Excitation.as_mininec_short', 'npulse / end_segs for the J rows of the current table'],
+ 'C20': ['the range check in register_source', 'sorted(geo_transforms) without key', 'complex power overflow in Laplace_Load.impedance; non-finite radial radius'],
 }
 rnd = sys.argv[1]
 props = {json.loads(l)['id']: json.loads(l) for l in open(os.path.join(ROOT, 'properties.jsonl'))}
